@@ -11,20 +11,32 @@ THEOREMS = ["EngineModel.Properties.C02." + t for t in [
     "C02_v2_cues_decode_agrees", "C02_v2_loops_decode_agrees",
     "C02_v2_track_encode_agrees", "C02_v2_beat_encode_agrees", "C02_v2_ovw_encode_agrees",
     "C02_v2_cues_encode_agrees", "C02_v2_loops_encode_agrees",
+    "C02_v1_track_decode_agrees", "C02_v1_ovw_decode_agrees", "C02_v1_hires_decode_agrees",
+    "C02_v1_cues_decode_agrees", "C02_v1_loops_decode_agrees", "C02_v1_beat_decode_agrees_of_spec",
+    "C02_v1_beat_decode_agrees_partial", "C02_v1_beat_decode_agrees_counterexample", "C02_v1_track_encode_agrees",
+    "C02_v1_ovw_encode_agrees", "C02_v1_hires_encode_agrees", "C02_v1_loops_encode_agrees",
+    "C02_v1_cues_encode_agrees", "C02_v1_beat_encode_agrees",
+    "C02_inflate_stored", "C02_unframe_frame",
 ]]
 ASSUMPTIONS = [
     "the Spec layouts (lean/EngineModel/Format/V2.lean, V1.lean) and the Lean inflate (Zlib/Inflate.lean, RFC 1950/1951) "
     "are our reading of the Engine format and of the RFCs; they are the oracle and are trusted as such (no Engine "
     "hardware in the loop)",
-    "the framing (zlib stream) is tied by execution on every run, not by a theorem: real blobs are inflated by the Lean "
-    "decoder, and stored-block streams made by the Lean encoder are read by the real library",
+    "the framing of the independent side is proved self-consistent (inflate (deflateStored x ++ r) = (x, r) for every "
+    "byte list); its agreement with libz is tied by execution on every run: real blobs (incl. multi-buffer streams of "
+    "17-100 KB incompressible payloads) are inflated by the Lean decoder, and stored-block streams made by the Lean "
+    "encoder are read by the real library",
+    "1.x beat data: the library accepts one family of payloads the Spec rejects (valid first grid, second count missing "
+    "-> 'no grids', the try/catch of beat_data::decode); Model = Spec is proved outside that explicitly characterised "
+    "family and the witness is replayed every run",
 ]
 MANIFEST = dict(
     text="The independent implementation is a set of declarative layouts in Lean (codec combinators with generic laws) "
          "plus an RFC 1950/1951 inflate and a stored-block encoder written in Lean. Theorems: for every value and every "
          "byte string the Model of the C++ decoder returns exactly the Spec decoder's verdict (same value, same "
-         "remainder, rejection otherwise) and the Model encoder returns exactly the Spec's bytes or rejects, per kind — "
-         "so endianness, widths and field order are pinned to the Spec. Tie, both directions on every run: blobs written "
+         "remainder, rejection otherwise) and the Model encoder returns exactly the Spec's bytes or rejects, for each of "
+         "the eleven kinds (five 2.x, six 1.x) — so endianness, widths and field order are pinned to the Spec; the Lean "
+         "inflate provably inverts the Lean stored-block encoder (multi-block, Adler-32). Tie, both directions on every run: blobs written "
          "by the real library are inflated by the Lean inflate and decoded by the Spec to the value written (and equal "
          "the Spec encoder's payload byte for byte; the 4-byte prefix equals the payload length); payloads from the Spec "
          "encoder framed by the Lean stored-deflate are decoded by the real library to the same value.",
@@ -141,6 +153,15 @@ def tie(ctx):
                      [decz_lines[j][:800], "impl: " + hd[j][:400], "want: " + want[:400]])
             elif cd.nontrivial(k, v):
                 distinct.add(enc_lines[i])
+    # witness of C02_v1_beat_decode_agrees_counterexample (Properties/C02.lean `beatMissingSecondGrid`): header, one
+    # grid of two markers, no second grid.  The library's try/catch accepts it as "no grids", the Spec rejects it.
+    wit = bytes([0] * 16 + [1] + [0] * 7 + [2] + [0] * 8 + [0] * 8 + [4, 0, 0, 0] + [0] * 4 +
+                [0, 0, 0, 0, 0, 0, 0x59, 0x40] + [4] + [0] * 7 + [0] * 4 + [0] * 4)
+    wl = ["dec v1.beat " + cd.hexb(wit)]
+    hw, mw, sw = H(wl)[0], M(wl)[0], M(["sdec v1.beat " + cd.hexb(wit)])[0]
+    if hw != mw:
+        divergences.append({"input": wl[0], "impl": hw[:200], "model": mw[:200]})
+    hist["witness:v1_beat_missing_second_grid impl=%s spec=%s" % (hw[:20].replace(" ", "_"), sw[:12])] = 1
     hist.update({"class:" + k: v for k, v in stats.items()})
     kinds = {}
     for (k, _) in vals:
